@@ -292,7 +292,7 @@ class IRGen:
             branches = [self.scalar(k) if r.random() < 0.7 else self.ref(pkg) for _ in range(r.randint(1, 3))]
             if r.random() < 0.3:
                 branches.append(dict(branches[0]))
-        elif c < 0.94:
+        elif c < 0.94 and not self.features.get("tame"):
             branches = []
         else:                # nested
             branches = [self.chain_disj(pkg, depth + 1) if depth + 1 < self.max_depth else self.scalar() for _ in range(r.randint(1, 2))]
